@@ -269,6 +269,11 @@ def double_free_scenarios(rng, tier):
                             out.append((dict(h, tag="double%d" % sel), pre + ["bad double %d" % sel]))
                         # most recently released node after one more allocation/release round
                         out.append((dict(h, tag="double-recent2"), pre + ["an", "dn 0", "bad double 2"]))
+                # the very last node of the block (of the last chunk): everything handed out, the highest node
+                # released (alone, or after / before others), released again
+                h = {"fam": "pool", "type": ptype, "ns": ns, "nodes": nodes, "place": place}
+                out.append((dict(h, tag="double-last"), ["fill", "dnhi 0", "bad double 1"]))
+                out.append((dict(h, tag="double-last2"), ["fill", "dn %d" % rng.randint(0, 5), "dnhi 0", "dn %d" % rng.randint(0, 5), "bad double 1"]))
     return out
 
 
